@@ -23,8 +23,10 @@ ClassOf ==
       UnsupportedBinding |-> "StatusUnsupportedBinding",
       VersionMismatch |-> "StatusVersionMismatch", Responder |-> "StatusResponder" ]
 Standard == DOMAIN ClassOf
-Seconds == Standard \cup {"absent", "urn:verif:status:second"}
-Versions == {"1.0", "1.1", "2.0", "2.1", "3.0", "garbage"}
+\* "Success" as a second-level code under a failed top-level code is just one more code that is not a documented one
+Seconds == Standard \cup {"absent", "urn:verif:status:second", "Success"}
+\* besides other versions: other spellings of the number two, which are not the string "2.0"
+Versions == {"1.0", "1.1", "2.0", "2.1", "3.0", "garbage", "2", "2.00", "+2.0", "nan", "2.0 "}
 Pre == {"ok", "badsig", "foreigndest"}        \* the checks that come before the status
 
 Scn == [kind : {"response"}, top : Tops, second : Seconds, msg : BOOLEAN, asrt : {"none", "signed"},
@@ -47,7 +49,8 @@ Version ==
     /\ CASE scn.version = "2.0" -> Goto(IF scn.kind = "request" THEN "accept" ELSE "destination")
          \* Request.verify turns the failed assertion into a None result
          [] scn.version \in {"1.0", "1.1"} -> Fail(IF scn.kind = "request" THEN "None" ELSE "RequestVersionTooLow")
-         [] scn.version \in {"2.1", "3.0"} -> Fail(IF scn.kind = "request" THEN "None" ELSE "RequestVersionTooHigh")
+         \* anything that is not the string "2.0" and reads as a number not below two counts as too high
+         [] scn.version \in {"2.1", "3.0", "2", "2.00", "+2.0", "nan", "2.0 "} -> Fail(IF scn.kind = "request" THEN "None" ELSE "RequestVersionTooHigh")
          [] OTHER -> Fail(IF scn.kind = "request" THEN "None" ELSE "ValueError")
 \* a foreign Destination makes _verify return None; the caller then trips over the missing object
 Destination == pc = "destination" /\ IF scn.pre = "foreigndest" THEN Fail("AttributeError") ELSE Goto("status")
